@@ -65,7 +65,8 @@ def build_lines(rng, sigs, idents, steps, imp):
         for ci, (si, v) in enumerate(changes):
             lines.append(((gen.change_text(rng, sigs[si], idents[si], v) + "\n").encode("latin1"), k, ci))
         if rng.random() < 0.1:
-            lines.append((rng.choice([b"$comment a b c $end\n", b"$comment $end\n", b"$comment 1! #7 $end\n"]), k, None))
+            lines.append((rng.choice([b"$comment a b c $end\n", b"$comment $end\n", b"$comment 1! #7 $end\n",
+                                      b"$comment 1st 0xff x86 zone #12x $end\n"]), k, None))
     return lines
 
 
@@ -142,9 +143,12 @@ def run(res, rng, tier, model_ok, replay=None):
                     if 0 < nl < len(lines):
                         c["key"] = (f, cut)
                 else:
-                    def pred(obs, full=full, incomplete=incomplete):
+                    # a cut inside a `$comment ... $end` line is not a cut inside a change: the finding class D9 does not apply
+                    in_comment = tail.lstrip(b" \t").startswith(b"$comment")
+
+                    def pred(obs, full=full, incomplete=incomplete, in_comment=in_comment):
                         o = vcdfam.strip_bl(obs)
-                        if o == "PANIC" and incomplete:
+                        if o == "PANIC" and incomplete and not in_comment:
                             return None            # known finding D9 (class CutInsideChange)
                         return prefix_ok(full, o)
                     c["pred"] = pred
